@@ -2,6 +2,7 @@ import json, os, time
 import vlib
 
 ASSUME = [
+    'every sequence is executed twice: once with all accessors compared after every operation, once with the accessors called only after the last operation (an accessor that leaves state behind -- a cached index -- must not be kept consistent by the observer)',
     'the bulk iterator (a RobustIRC-specific accessor, not part of raft.LogStore) is compared on the log entries it yields; stable-store keys that a range spanning 0x7374... yields on a store that also holds stable keys are skipped: the repository only bulk-iterates the IRC log copy, which holds none',
     'alphabet: 12 stores (StoreLog / StoreLogs batch of 2 / StoreLogProto; indexes 1,2,3,7,2^40,2^63; LogCommand/LogNoop/LogConfiguration; payload protobuf message, JSON message, empty, opaque bytes with and without a leading p; term/extensions/append time zero and set), 8 DeleteRange ranges (single, prefix, only-missing, middle, min>max, single large, suffix, all), 6 stable writes (Set/SetUint64 on CurrentTerm, LastVoteCand and 8-byte keys equal to the big-endian indexes 7 and 2^63), Close+reopen as JSON and as protobuf; every sequence is run from an empty database opened as JSON and as protobuf',
     'reopen transitions json->json, json->protobuf (ConvertToProto), protobuf->protobuf; protobuf->json is not a supported transition of the repository and is left out',
@@ -66,7 +67,7 @@ def run(tier):
     phases = {}
     for name, rr in runs:
         phases[name] = {k: sum(int(r.get(k, 0) or 0) for r in rr) for k in (
-            'sequences', 'operations', 'reads_compared', 'crash_images', 'journal_cuts', 'cuts_op_absent', 'cuts_op_present',
+            'sequences', 'sequences_reexecuted_with_reads_only_at_the_end', 'operations', 'reads_compared', 'crash_images', 'journal_cuts', 'cuts_op_absent', 'cuts_op_present',
             'journal_cut_skipped', 'prefixes_pruned_after_violation', 'skipped_protobuf_to_json')}
         phases[name]['alphabet'] = rr[0].get('alphabet')
         phases[name]['exhaustive'] = all(r.get('exhaustive', True) for r in rr)
@@ -76,6 +77,7 @@ def run(tier):
         'transitions': tot('operations'),
         'traces_validated_against_impl': tot('sequences'),
         'reads_compared': tot('reads_compared'),
+        'sequences_reexecuted_with_reads_only_at_the_end': tot('sequences_reexecuted_with_reads_only_at_the_end'),
         'crash_images': tot('crash_images'),
         'journal_cuts': tot('journal_cuts'),
         'journal_cuts_operation_absent': tot('cuts_op_absent'),
